@@ -31,7 +31,7 @@ FACTORS = dict(
     n_steps=[None, 1, 3],
     n_max_steps=[None, 1, 10],
     evalmode=["scalar", "vector", "blobs"],
-    boundary=["none", "periodic", "reflective", "mixed"],
+    boundary=["none", "periodic", "reflective", "mixed", "empty_lists"],
     pool=[None, "simpool", 1, 4],
     save_every=[None, 1, 3, 1000],
     ess_ratio=[0.5, 2.0, 8.0],
@@ -97,7 +97,9 @@ def row_to_case(row, seed):
     if row["N"] != "default":
         cfg["n_particles"] = row["N"]
     b = row["boundary"]
-    if b == "periodic":
+    if b == "empty_lists":
+        cfg["periodic"], cfg["reflective"] = [], []
+    elif b == "periodic":
         cfg["periodic"] = [0]
     elif b == "reflective":
         cfg["reflective"] = [d - 1]
